@@ -428,6 +428,11 @@ class Machine(Interp):
             # recursive re-entry with the same abstract arguments: least fix-point of a
             # tail call = the non-recursive exits; this path contributes nothing new
             st.tags['recursion_cut'] = st.tags.get('recursion_cut', 0) + 1
+            if rty.kind == 'void' and fn_ret_kind(ix, fn) == 'void':
+                # a void function walking a summary structure (a list released node by node by tail recursion): the deeper
+                # levels repeat on the same abstract state what this level has just done - the state reached here stands
+                # for "one or more levels done", next to the base-case exits
+                return [(st, Val(rty, ZERO))]
             return []
         if sum(1 for s in st.stack if s[0] == name) >= 6:
             raise Unsupported('recursion too deep in ' + name)
